@@ -91,7 +91,14 @@ Cat == [
   unsafeimpl |-> [toks |-> <<"unsafe","x","x","x","x","x","x","x","x","lit","x","{}">>, label |-> FALSE,
                   text |-> "unsafe impl Send for crate::Nt<{n}{i}> {}", q |-> ""],
   cfgfn      |-> [toks |-> <<"#","[]","pub","fn","x","x","x","x","()","x","x","x","{}">>, label |-> TRUE,
-                  text |-> "#[cfg(all())] pub fn f{i}<D>(d: &D) -> u32 { {i} }", q |-> ""]
+                  text |-> "#[cfg(all())] pub fn f{i}<D>(d: &D) -> u32 { {i} }", q |-> ""],
+  \* items whose HEADER contains a top-level `=` before the `{ }` body (`<..>` is no token group)
+  eqprivfn   |-> [toks |-> <<"fn","x","()","x","x","x","x","x","x","x","x","x","{}">>, label |-> FALSE,
+                  text |-> "fn h{i}() -> impl Iterator<Item = u32> { [{i}u32].into_iter() }", q |-> ""],
+  eqstruct   |-> [toks |-> <<"pub","x","x","x","x","x","()","x","{}">>, label |-> FALSE,
+                  text |-> "pub struct D{i}<T = ()> { pub t: T }", q |-> ""],
+  eqtrait    |-> [toks |-> <<"pub","x","x","x","x","x","fn","()","x","{}">>, label |-> FALSE,
+                  text |-> "pub trait V{i}<T = fn()> { fn v(&self, t: T); }", q |-> ""]
 ]
 Ids == DOMAIN Cat
 
